@@ -383,7 +383,7 @@ def S(node, **kw):
 
 def configs(tier):
     quick = tier == "quick"
-    depth = 2
+    depth = 2 if quick else 3
     br_a = ("bridge", 3, [(8, None, "rw"), (12, None, "rw"), (1, None, "w")])
     br_b = ("bridge", 3, [(20, None, "rw"), (8, 4, "r")])
     br_c = ("bridge", 2, [(16, 0, "rw1c"), (5, None, "rw")])
@@ -420,6 +420,8 @@ def configs(tier):
         add(16, 6, [S(("csr", cdec2, "io"), addr=64), S(("sram", 16, False), addr=16), S(("sram", 8, True), addr=0)], depth=3)
     for c in out:
         c.setdefault("depth", depth)
+        if not quick and c["dw"] == 32:
+            c["all_sel"] = True
     return out
 
 
